@@ -147,7 +147,8 @@ func (cl *CmdLine) Parse(args []string) []string {
 			outer:
 				for j, ch := range arg {
 					if option := options[string(ch)]; option != nil {
-						next := j + utf8.RuneLen(ch) // The option name may be a multi-byte character
+						_, size := utf8.DecodeRuneInString(arg[j:])
+						next := j + size // The option name may be a multi-byte character
 						switch {
 						case option.isBool():
 							cl.setOrFail(option, "-"+arg, "true")
